@@ -21,7 +21,6 @@ RULE = (
     "same shape that is equal or differs in exactly one component; distinct by (fields, candidate operand)."
 )
 ASSUMPTIONS = [
-    "negative displacements are spelled -0x.. in the rule (a negative value without 0x is not asserted)",
     "constant_multiplier without register_multiplier has no operand with the same present components: it must match nothing (rejecting the rule is accepted)",
     "segment-prefixed and *-operands are outside the statement",
 ]
@@ -61,6 +60,11 @@ def cases(draw):
         if v >= 0 and draw(st.booleans()):
             s = s[2:]
             if s.isdigit() and (s == "0" or s[0] != "0") and draw(st.booleans()):
+                return int(s)
+        elif v < 0 and draw(st.booleans()):
+            # "constants optionally without 0x" holds for negative displacements too: -8 for -0x8
+            s = "-" + s[3:]
+            if s[1:].isdigit() and s[1] != "0" and draw(st.booleans()):
                 return int(s)
         return s
 
